@@ -573,6 +573,16 @@ def r5(tree, rep):
     g = build(fn, split=True)
     tab = {}
     ok = True
+    # the constructor call and its arguments by field (positional or keyword), whatever the locals are called
+    from ..automat_x import Program
+    fields = [f.lstrip("_") for f in Program(tree).cls("DilatedConnectionProtocol").attr_fields]
+    ctor = [c for c in ast.walk(fn) if isinstance(c, ast.Call) and dotted(c.func) == "DilatedConnectionProtocol"]
+
+    def ctor_arg(name):
+        if len(ctor) != 1 or name not in fields:
+            return None
+        return call_arg(ctor[0], fields.index(name), name)
+    pro_args = {"outbound_prologue": ctor_arg("outbound_prologue"), "inbound_prologue": ctor_arg("inbound_prologue")}
     for role in ("leader", "follower"):
         unknown = []
 
@@ -595,9 +605,9 @@ def r5(tree, rep):
             st = g.stmt[x]
             if isinstance(st, ast.Expr) and isinstance(st.value, ast.Call) and (dotted(st.value.func) or "").startswith("noise.set_as_"):
                 d["noise"] = dotted(st.value.func)
-        for k in ("outbound_prologue", "inbound_prologue"):
-            if k in envp:
-                d[k] = dotted(envp[k])
+        for k, a in pro_args.items():
+            if a is not None:
+                d[k] = dotted(g.subst_env(a, envp))
         tab[role] = d
     L, F = tab.get("leader", {}), tab.get("follower", {})
     rep.check("C12.R5", "leader is the Noise initiator, follower the responder", ok and L.get("noise", "").endswith("set_as_initiator")
@@ -610,11 +620,10 @@ def r5(tree, rep):
     pn = g.call_nodes(lambda c: (dotted(c.func) or "").endswith(".set_psks"))
     ok = len(psk) == 1 and is_self_attr(psk[0].args[0], "_dilation_key") and g.must_pass(pn)
     rep.check("C12.R5", "both roles key Noise with the dilation key", ok, site(fn, CTR), key="C12.R5:psk")
-    ctor = [c for c in ast.walk(fn) if isinstance(c, ast.Call) and dotted(c.func) == "DilatedConnectionProtocol"]
-    ok = len(ctor) == 1
+    ok = len(ctor) == 1 and all(pro_args.values())
     if ok:
-        names = [dotted(a) for a in ctor[0].args]
-        ok = names[-2:] == ["outbound_prologue", "inbound_prologue"] and "noise" in names and "self._role" in names
+        ok = dotted(ctor_arg("noise")) == "noise" and dotted(ctor_arg("role")) == "self._role" \
+            and not same_expr(pro_args["outbound_prologue"], pro_args["inbound_prologue"])
     rep.check("C12.R5", "the protocol is built with (role, noise, outbound prologue, inbound prologue) in that order", ok, site(fn, CTR), key="C12.R5:ctor-args")
     pl, pf_ = tree.module_constants(CTR).get("PROLOGUE_LEADER"), tree.module_constants(CTR).get("PROLOGUE_FOLLOWER")
     rep.check("C12.R5", "the two prologues differ and end in a blank line", isinstance(const(pl), bytes) and isinstance(const(pf_), bytes) and const(pl) != const(pf_)
